@@ -309,24 +309,50 @@ def case_svd(ctx, inp):
 
 
 def case_joint(ctx, inp):
-    """different contractions of the SAME operands computed in one graph keep their own results"""
+    """contractions computed in ONE graph keep their own results: different contractions of the same operands, the
+    same contractions with the operands' values changed (same shapes/chunks), with the left operand rechunked into
+    one block, and (square case) chained products (x·y)·y and x·(x·y)"""
     da = _da()
     a, b = arr(inp["a"]), arr(inp["b"])
-    x = da.from_array(a, chunks=tuple(tuple(c) for c in inp["ca"]))
-    y = da.from_array(b, chunks=tuple(tuple(c) for c in inp["cb"]))
-    arrs = []
-    for it in inp["items"]:
+    ca, cb = tuple(tuple(c) for c in inp["ca"]), tuple(tuple(c) for c in inp["cb"])
+    x, y = da.from_array(a, chunks=ca), da.from_array(b, chunks=cb)
+    pairs = [("x,y", x, y)]
+    if a.size and b.size:
+        pairs.append(("other values", da.from_array((a[(slice(None, None, -1),) * a.ndim] + 1).astype(a.dtype), chunks=ca), y))
+        pairs.append(("other right values", x, da.from_array((b * 2 + 1).astype(b.dtype), chunks=cb)))
+        pairs.append(("left one block", da.from_array(a, chunks=a.shape), y))
+    arrs, labels = [], []
+
+    def build(it, u, v):
         if it["fn"] == "tensordot":
-            arrs.append(da.tensordot(x, y, axes=(tuple(it["axes"][0]), tuple(it["axes"][1]))))
-        elif it["fn"] == "einsum":
-            arrs.append(da.einsum(it["sub"], x, y))
-        else:
-            arrs.append(getattr(da, it["fn"])(x, y))
+            return da.tensordot(u, v, axes=(tuple(it["axes"][0]), tuple(it["axes"][1])))
+        if it["fn"] == "einsum":
+            return da.einsum(it["sub"], u, v)
+        return getattr(da, it["fn"])(u, v)
+
+    for nm, u, v in pairs:
+        for it in inp["items"]:
+            arrs.append(build(it, u, v))
+            labels.append((nm, it))
+    refs = [None] * len(arrs)
+    if a.ndim == 2 and b.ndim == 2 and a.shape[0] == a.shape[1] == b.shape[0] == b.shape[1]:
+        for nm, z, r in (("(x@y)@y", da.matmul(da.matmul(x, y), y), (a @ b) @ b), ("x@(x@y)", da.matmul(x, da.matmul(x, y)), a @ (a @ b)),
+                         ("dot(dot)", da.dot(da.dot(x, y), y), (a @ b) @ b)):
+            arrs.append(z)
+            labels.append(("chain", nm))
+            refs.append(r)
+        ctx.branch("chains")
     bad = U.joint_vs_solo(arrs)
     for i in bad:
         ctx.fail("a contraction computed together with others differs from the same contraction computed alone",
-                 observed={"item": inp["items"][i], "name": arrs[i].name})
-    ctx.branch(f"joint×{len(arrs)}")
+                 observed={"item": labels[i], "name": arrs[i].name,
+                           "same_name_as": [labels[j] for j, w in enumerate(arrs) if j != i and w.name == arrs[i].name]})
+    for i, r in enumerate(refs):
+        if r is not None and i not in bad:
+            v = np.asarray(U.sync_compute(arrs[i]))
+            if v.shape != r.shape or not np.allclose(v, r, rtol=1e-9, atol=1e-9 * max(1.0, float(np.abs(r).max()) if r.size else 1.0)):
+                ctx.fail(f"chained product {labels[i][1]} differs from NumPy", observed=v.tolist(), expected=r.tolist())
+    ctx.branch(f"joint×{len(inp['items'])}")
 
 
 CASES = {"joint": case_joint, "tensordot": case_tensordot, "prod": case_prod, "einsum": case_einsum, "contract": case_contract,
